@@ -159,7 +159,38 @@ func c09_1(c *core.Ctx, p *core.Prog) {
 					usable = append(usable, cd)
 				}
 			}
-			ok, w, _, err := compareGuard(g, usable, []string{"count"}, smallDom, func(env map[string]int64) bool { return env["count"] > 0 }, "implies")
+			roleNames := []string{"count"}
+			if len(usable) < len(conds) {
+				// a conjunct that also speaks about other things (the whole flush predicate in one helper): those terms are
+				// free variables of the implication
+				g.Roles = func(obj types.Object, e ast.Expr) (string, bool) {
+					if obj == types.Object(a.mCount) {
+						return "count", true
+					}
+					if v, ok := obj.(*types.Var); ok && v.IsField() {
+						return "?" + v.Name(), true
+					}
+					return "", false
+				}
+				usable = usable[:0]
+				seenRole := map[string]bool{"count": true}
+				for _, cd := range conds {
+					if rs, e := g.Terms([]core.Cond{cd}); e == nil {
+						usable = append(usable, cd)
+						for _, r := range rs {
+							if !seenRole[r] {
+								seenRole[r] = true
+								roleNames = append(roleNames, r)
+							}
+						}
+					}
+				}
+				if len(roleNames) > 5 {
+					roleNames = roleNames[:1]
+					usable = nil
+				}
+			}
+			ok, w, _, err := compareGuard(g, usable, roleNames, smallDom, func(env map[string]int64) bool { return env["count"] > 0 }, "implies")
 			if err != nil {
 				c.Undecided(key, pos, core.FuncName(fn), err.Error())
 				return
